@@ -255,4 +255,224 @@ VF_E void mk_pmove(PMk* out, PMk& o) { new (out) PMk(etl::move(o)); }
 VF_E void mk_pcopy(PMk* out, PMk const& o) { new (out) PMk(o); }
 VF_E void mk_passign_rv(PMk& a, PMk& b) { a = etl::move(b); }
 VF_E void mk_passign_lv(PMk& a, PMk const& b) { a = b; }
+
+// ---- value categories II: reference elements, converting constructors / assignments, every call overload of the wrappers -----------
+// Oracle: [pairs.pair] (forward<U1>(p.first): an lvalue-reference element is COPIED from, a value / rvalue-reference element MOVED from),
+// [tuple.elem] [tuple.creation] [tuple.apply], [func.require] INVOKE with the value category of the wrapper applied to target and bound state
+// ([func.bind.partial] [func.not.fn] [refwrap.invoke]).  Mk's move operations mark their source (v = -1).
+inline auto operator==(Mk const& a, Mk const& b) -> bool { return a.v == b.v; }
+using PMkL = etl::pair<Mk, long>; using PLMk = etl::pair<long, Mk>;   // value targets of the converting operations
+using PRi = etl::pair<Mk&, int>; using PiR = etl::pair<int, Mk&>; using PCi = etl::pair<Mk const&, int>; using PXi = etl::pair<Mk&&, int>;
+#define VF_PCTOR(N, S, D)                                                                                                   \
+  VF_E void N##_cc(D* out, S const& s) { new (out) D(s); }                                                                  \
+  VF_E void N##_cm(D* out, S& s) { new (out) D(etl::move(s)); }
+#define VF_PASSIGN(N, S, D)                                                                                                 \
+  VF_E void N##_ca(D& d, S const& s) { d = s; }                                                                             \
+  VF_E void N##_cma(D& d, S& s) { d = etl::move(s); }
+VF_PCTOR(pv, PMk, PMkL) VF_PASSIGN(pv, PMk, PMkL)   // value element
+VF_PCTOR(pr, PRi, PMkL) VF_PASSIGN(pr, PRi, PMkL)   // lvalue-reference element (first)
+VF_PCTOR(ps, PiR, PLMk) VF_PASSIGN(ps, PiR, PLMk)   // lvalue-reference element (second)
+VF_PCTOR(pc, PCi, PMkL) VF_PASSIGN(pc, PCi, PMkL)   // const-reference element
+VF_PCTOR(px, PXi, PMkL) VF_PASSIGN(px, PXi, PMkL)   // rvalue-reference element
+VF_PASSIGN(pw, PMk, PRi)                            // value source, reference TARGET: assignment writes through the reference
+VF_E void pri_ctor(PRi* out, Mk& a, int b) { new (out) PRi(a, b); }
+VF_E void pri_copy(PRi* out, PRi const& o) { new (out) PRi(o); }
+VF_E void pri_move(PRi* out, PRi& o) { new (out) PRi(etl::move(o)); }
+VF_E void pri_move_assign(PRi& a, PRi& b) { a = etl::move(b); }
+VF_E void pri_swap(PRi& a, PRi& b) { a.swap(b); }
+VF_E Mk* pri_get0(PRi& p) { return &etl::get<0>(p); }
+VF_E Mk* pri_cget0(PRi const& p) { return &etl::get<0>(p); }
+VF_E Mk const* pci_get0(PCi& p) { return &etl::get<0>(p); }
+VF_E int* pri_get1(PRi& p) { return &etl::get<1>(p); }
+VF_E int pxi_get_rv(PXi& p) { Mk m(etl::get<0>(etl::move(p))); return m.v; }
+VF_E int pxi_get_lv(PXi& p) { Mk m(etl::get<0>(p)); return m.v; }
+VF_E void pmk_ctor_lv(PMk* out, Mk& a, int& b) { new (out) PMk(a, b); }
+VF_E void pmk_ctor_clv(PMk* out, Mk const& a, int const& b) { new (out) PMk(a, b); }
+VF_E void pmk_ctor_rv(PMk* out, Mk& a, int b) { new (out) PMk(etl::move(a), etl::move(b)); }
+VF_E void pmk_make_lv(PMk* out, Mk& a, int& b) { new (out) PMk(etl::make_pair(a, b)); }
+VF_E void pmk_make_rv(PMk* out, Mk& a, int b) { new (out) PMk(etl::make_pair(etl::move(a), etl::move(b))); }
+VF_E void pmk_swap(PMk& a, PMk& b, bool fr) { if (fr) { using etl::swap; swap(a, b); } else { a.swap(b); } }
+
+// which overload a Mk argument selects: 1 Mk&&, 2 Mk&, 3 Mk const&, 4 Mk const&&
+struct Cat4 {
+    auto operator()(Mk&&, int) const -> int { return 1; } auto operator()(Mk&, int) const -> int { return 2; }
+    auto operator()(Mk const&, int) const -> int { return 3; } auto operator()(Mk const&&, int) const -> int { return 4; } };
+// mode: 0 lvalue, 1 const lvalue, 2 rvalue, 3 const rvalue
+#define VF_CAT_OF(EXPR_OF, x, mode) ((mode) == 0 ? Cat4{}(EXPR_OF(x), 0) : (mode) == 1 ? Cat4{}(EXPR_OF(etl::as_const(x)), 0) : (mode) == 2 ? Cat4{}(EXPR_OF(etl::move(x)), 0) : Cat4{}(EXPR_OF(etl::move(etl::as_const(x))), 0))
+VF_E int pmk_getcat(PMk& p, int mode) { return VF_CAT_OF(etl::get<0>, p, mode); }
+VF_E int tmk_getcat(TMk& t, int mode) { return VF_CAT_OF(etl::get<0>, t, mode); }
+VF_E int tmk_applycat(TMk& t, int mode) {
+    if (mode == 0) { return etl::apply(Cat4{}, t); } if (mode == 1) { return etl::apply(Cat4{}, etl::as_const(t)); }
+    if (mode == 2) { return etl::apply(Cat4{}, etl::move(t)); } return etl::apply(Cat4{}, etl::move(etl::as_const(t))); }
+VF_E int pmk_applycat(PMk& p, int mode) {
+    if (mode == 0) { return etl::apply(Cat4{}, p); } if (mode == 1) { return etl::apply(Cat4{}, etl::as_const(p)); }
+    if (mode == 2) { return etl::apply(Cat4{}, etl::move(p)); } return etl::apply(Cat4{}, etl::move(etl::as_const(p))); }
+VF_E int pmk_from(PMk& p, int mode) {
+    if (mode == 0) { return etl::make_from_tuple<FromMk>(p).m.v; } if (mode == 1) { return etl::make_from_tuple<FromMk>(etl::as_const(p)).m.v; }
+    if (mode == 2) { return etl::make_from_tuple<FromMk>(etl::move(p)).m.v; } return etl::make_from_tuple<FromMk>(etl::move(etl::as_const(p))).m.v; }
+VF_E int tmk_from(TMk& t, int mode) {
+    if (mode == 0) { return etl::make_from_tuple<FromMk>(t).m.v; } if (mode == 1) { return etl::make_from_tuple<FromMk>(etl::as_const(t)).m.v; }
+    if (mode == 2) { return etl::make_from_tuple<FromMk>(etl::move(t)).m.v; } return etl::make_from_tuple<FromMk>(etl::move(etl::as_const(t))).m.v; }
+
+// tuple: construction from lvalues / rvalues, reference elements, tie / forward_as_tuple round trips
+using TRi = etl::tuple<Mk&, int>; using TCi = etl::tuple<Mk const&, int>; using TXi = etl::tuple<Mk&&, int>;
+VF_E void tmk_ctor_lv(TMk* out, Mk& a, int& b) { new (out) TMk(a, b); }
+VF_E void tmk_ctor_clv(TMk* out, Mk const& a, int const& b) { new (out) TMk(a, b); }
+VF_E void tmk_ctor_rv(TMk* out, Mk& a, int b) { new (out) TMk(etl::move(a), etl::move(b)); }
+VF_E void tmk_make_lv(TMk* out, Mk& a, int& b) { new (out) TMk(etl::make_tuple(a, b)); }
+VF_E void tmk_make_rv(TMk* out, Mk& a, int b) { new (out) TMk(etl::make_tuple(etl::move(a), etl::move(b))); }
+/* make_tuple(ref(a), b) does not compile: tuple_leaf<0, Mk&> list-initialises its reference member from the reference_wrapper (tuple.hpp:39) */
+VF_E void tmk_swap(TMk& a, TMk& b) { a.swap(b); }
+VF_E void tri_ctor(TRi* out, Mk& a, int b) { new (out) TRi(a, b); }
+VF_E void tri_copy(TRi* out, TRi const& o) { new (out) TRi(o); }
+VF_E void tri_move(TRi* out, TRi& o) { new (out) TRi(etl::move(o)); }
+VF_E void tri_swap(TRi& a, TRi& b) { a.swap(b); }
+VF_E Mk* tri_get0(TRi& t) { return &etl::get<0>(t); }
+VF_E Mk const* tri_cget0(TRi const& t) { return &etl::get<0>(t); }   /* std: Mk& (tuple_element_t<0, T> const&); etl::get returns `auto const&` = Mk const& */
+VF_E Mk const* tci_get0(TCi& t) { return &etl::get<0>(t); }
+VF_E int tri_init_lv(TRi& t) { Mk m(etl::get<0>(t)); return m.v; }
+VF_E int tri_init_clv(TRi const& t) { Mk m(etl::get<0>(t)); return m.v; }
+VF_E int tri_applycat(TRi& t, bool c) { return c ? etl::apply(Cat4{}, etl::as_const(t)) : etl::apply(Cat4{}, t); }
+VF_E int tci_applycat(TCi& t) { return etl::apply(Cat4{}, t); }
+VF_E bool tri_eq(TRi const& a, TRi const& b) { return a == b; }
+VF_E int txi_get_rv(TXi& t) { Mk m(etl::get<0>(etl::move(t))); return m.v; }
+VF_E int txi_get_lv(TXi& t) { Mk m(etl::get<0>(t)); return m.v; }
+VF_E int txi_applycat(TXi& t, bool rv) { return rv ? etl::apply(Cat4{}, etl::move(t)) : etl::apply(Cat4{}, t); }
+VF_E int txi_from_rv(TXi& t) { return etl::make_from_tuple<FromMk>(etl::move(t)).m.v; }
+VF_E Mk* tie_addr(Mk& a, int& i) { auto t = etl::tie(a, i); return &etl::get<0>(t); }
+VF_E int tie_init(Mk& a, int& i) { auto t = etl::tie(a, i); Mk m(etl::get<0>(t)); return enc3(m.v, etl::get<1>(t), 0); }
+VF_E void tie_store(Mk& a, int& i, Mk& src, int j, bool rv) { auto t = etl::tie(a, i); if (rv) { etl::get<0>(t) = etl::move(src); } else { etl::get<0>(t) = src; } etl::get<1>(t) = j; }
+VF_E Mk* fat_addr(Mk& a) { auto t = etl::forward_as_tuple(a); return &etl::get<0>(t); }
+VF_E Mk* fat_addr_rv(Mk& a) { auto t = etl::forward_as_tuple(etl::move(a)); return &etl::get<0>(t); }
+VF_E int fat_init(Mk& a, bool rv) { auto t = etl::forward_as_tuple(etl::move(a)); if (rv) { Mk m(etl::get<0>(etl::move(t))); return m.v; } Mk m(etl::get<0>(t)); return m.v; }
+VF_E int fat_applycat_rv(Mk& a, int i) { return etl::apply(Cat4{}, etl::forward_as_tuple(etl::move(a), etl::move(i))); }
+VF_E int fat_applycat_crv(Mk const& a, int i) { return etl::apply(Cat4{}, etl::forward_as_tuple(etl::move(a), etl::move(i))); }
+VF_E int fat_applycat_clv(Mk const& a, int const& i) { return etl::apply(Cat4{}, etl::forward_as_tuple(a, i)); }
+VF_E int fat_from_rv(Mk& a, int i) { return etl::make_from_tuple<FromMk>(etl::forward_as_tuple(etl::move(a), etl::move(i))).m.v; }
+#if VF_TUPLE_CAT
+using TMk2 = etl::tuple<Mk, int, Mk, int>;
+VF_E void tcat_mk(TMk* out, TMk& t, int mode) { if (mode == 2) { new (out) TMk(etl::tuple_cat(etl::move(t))); } else { new (out) TMk(etl::tuple_cat(etl::as_const(t))); } }
+VF_E void tcat_mk2(TMk2* out, TMk& t, TMk& u, bool rv) { if (rv) { new (out) TMk2(etl::tuple_cat(etl::move(t), etl::as_const(u))); } else { new (out) TMk2(etl::tuple_cat(etl::as_const(t), etl::move(u))); } }
+#endif
+
+// ---- callables whose call reveals the value category they were called with ---------------------------------------------------------
+// Q4: the call operator that ran is logged in a1 (1 &, 2 const&, 3 &&, 4 const&&); the && operator CONSUMES the callable's state (moves m out)
+struct Q4 { Log* log; Mk m;
+    auto rec(int x, int c, int mv) const -> int { ++log->calls; log->a0 = x; log->a1 = c; return mv ^ x; }
+    auto operator()(int x) & -> int { return rec(x, 1, m.v); }
+    auto operator()(int x) const& -> int { return rec(x, 2, m.v); }
+    auto operator()(int x) && -> int { Mk t(etl::move(m)); return rec(x, 3, t.v); }
+    auto operator()(int x) const&& -> int { return rec(x, 4, m.v); } };
+// TgtV takes the first argument BY VALUE (copy-constructed from an lvalue / const rvalue, MOVE-constructed from an rvalue):
+// a0 = value seen, a1 = the int argument, a2 = which call operator of the target ran; tag makes moves of the target itself visible
+struct TgtV { Log* log; Mk tag;
+    auto rec(Mk const& b, int x, int c) const -> int { ++log->calls; log->a0 = b.v; log->a1 = x; log->a2 = c; return enc3(b.v, x, c); }
+    auto operator()(Mk b, int x) & -> int { return rec(b, x, 1); }
+    auto operator()(Mk b, int x) const& -> int { return rec(b, x, 2); }
+    auto operator()(Mk b, int x) && -> int { return rec(b, x, 3); }
+    auto operator()(Mk b, int x) const&& -> int { return rec(b, x, 4); } };
+struct TakeMk { Log* log; auto operator()(Mk b, int x) const -> int { ++log->calls; log->a0 = b.v; log->a1 = x; return enc3(b.v, x, 0); } };
+// CatA: category of a CALL argument behind one bound int: result = enc3(bound, category, 0)
+struct CatA { auto operator()(int b, Mk&&) const -> int { return enc3(b, 1, 0); } auto operator()(int b, Mk&) const -> int { return enc3(b, 2, 0); }
+              auto operator()(int b, Mk const&) const -> int { return enc3(b, 3, 0); } auto operator()(int b, Mk const&&) const -> int { return enc3(b, 4, 0); } };
+// CatP: predicate logging the category of its argument in a1 (for not_fn, whose result is a bool)
+struct CatP { Log* log; auto rec(Mk const& m, int c) const -> bool { ++log->calls; log->a0 = m.v; log->a1 = c; return m.v != 0; }
+    auto operator()(Mk&& m) const -> bool { return rec(m, 1); } auto operator()(Mk& m) const -> bool { return rec(m, 2); }
+    auto operator()(Mk const& m) const -> bool { return rec(m, 3); } auto operator()(Mk const&& m) const -> bool { return rec(m, 4); } };
+// call a wrapper as lvalue / const lvalue / rvalue / const rvalue
+template <typename R, typename W, typename... A>
+auto call_as(W& w, int mode, A&&... a) -> R {
+    if (mode == 0) { return w(etl::forward<A>(a)...); }
+    if (mode == 1) { return etl::as_const(w)(etl::forward<A>(a)...); }
+    if (mode == 2) { return etl::move(w)(etl::forward<A>(a)...); }
+    return etl::move(etl::as_const(w))(etl::forward<A>(a)...); }
+// pass m as lvalue / const lvalue / rvalue / const rvalue
+#define VF_ARG_AS(CALL, m, acat) ((acat) == 0 ? CALL(m) : (acat) == 1 ? CALL(etl::as_const(m)) : (acat) == 2 ? CALL(etl::move(m)) : CALL(etl::move(etl::as_const(m))))
+
+// invoke / invoke_r: forward<F>(f)(forward<Args>(args)...)
+// how: 0 invoke, 1 invoke_r<long>, 2 invoke_r<void> (result discarded: returns 0), 3 apply(f, tuple<int>{x})
+VF_E int ivq_call(Q4& f, int x, int mode, int how) {
+    if (how == 1) { if (mode == 0) { return static_cast<int>(etl::invoke_r<long>(f, x)); } if (mode == 1) { return static_cast<int>(etl::invoke_r<long>(etl::as_const(f), x)); }
+             if (mode == 2) { return static_cast<int>(etl::invoke_r<long>(etl::move(f), x)); } return static_cast<int>(etl::invoke_r<long>(etl::move(etl::as_const(f)), x)); }
+    if (how == 2) { if (mode == 0) { etl::invoke_r<void>(f, x); } else if (mode == 1) { etl::invoke_r<void>(etl::as_const(f), x); }
+             else if (mode == 2) { etl::invoke_r<void>(etl::move(f), x); } else { etl::invoke_r<void>(etl::move(etl::as_const(f)), x); } return 0; }
+    if (how == 3) { etl::tuple<int> t{x}; if (mode == 0) { return etl::apply(f, t); } if (mode == 1) { return etl::apply(etl::as_const(f), t); }
+             if (mode == 2) { return etl::apply(etl::move(f), t); } return etl::apply(etl::move(etl::as_const(f)), t); }
+    if (mode == 0) { return etl::invoke(f, x); } if (mode == 1) { return etl::invoke(etl::as_const(f), x); }
+    if (mode == 2) { return etl::invoke(etl::move(f), x); } return etl::invoke(etl::move(etl::as_const(f)), x); }
+VF_E int ivc_cat(Mk& m, int acat, bool r) {
+#define VF_IVC(a) etl::invoke(Cat4{}, a, 0)
+#define VF_IVCR(a) etl::invoke_r<int>(Cat4{}, a, 0)
+    return r ? VF_ARG_AS(VF_IVCR, m, acat) : VF_ARG_AS(VF_IVC, m, acat); }
+VF_E int ivv_call(TakeMk& f, Mk& m, int x, int acat) {
+#define VF_IVV(a) etl::invoke(f, a, x)
+    return VF_ARG_AS(VF_IVV, m, acat); }
+
+// reference_wrapper::operator(): the referenced callable is called as an lvalue (const lvalue through cref), arguments forwarded
+VF_E int rwq_call(Q4& f, int x, bool c) { return c ? etl::cref(f)(x) : etl::ref(f)(x); }
+VF_E int rwc_cat(Mk& m, int acat) { Cat4 c4{}; auto r = etl::ref(c4);
+#define VF_RWC(a) r(a, 0)
+    return VF_ARG_AS(VF_RWC, m, acat); }
+VF_E int rwv_call(TakeMk& f, Mk& m, int x, int acat) { auto r = etl::ref(f);
+#define VF_RWV(a) r(a, x)
+    return VF_ARG_AS(VF_RWV, m, acat); }
+
+// bind_front: BFV binds a Mk in front of a by-value target, BFC in front of the category probe, BFA binds an int (category of the CALL argument)
+using BFV = etl::detail::bind_front_t<TgtV, Mk>;
+using BFC = etl::detail::bind_front_t<Cat4, Mk>;
+using BFA = etl::detail::bind_front_t<CatA, int>;
+static_assert(etl::is_same_v<BFV, decltype(etl::bind_front(etl::declval<TgtV>(), etl::declval<Mk>()))>);
+static_assert(etl::is_same_v<BFC, decltype(etl::bind_front(Cat4{}, etl::declval<Mk>()))> && etl::is_same_v<BFA, decltype(etl::bind_front(CatA{}, 1))>);
+VF_E int bfv_call(BFV& w, int x, int mode) { return call_as<int>(w, mode, x); }
+VF_E int bfc_call(BFC& w, int mode) { return call_as<int>(w, mode, 0); }
+VF_E int bfa_call(BFA& w, Mk& m, int mode, int acat) {
+#define VF_BFA(a) call_as<int>(w, mode, a)
+    return VF_ARG_AS(VF_BFA, m, acat); }
+VF_E void bfv_copy(BFV* out, BFV const& w) { new (out) BFV(w); }
+VF_E void bfv_move(BFV* out, BFV& w) { new (out) BFV(etl::move(w)); }
+VF_E void bfv_make(BFV* out, TgtV& f, Mk& b, bool frv) { if (frv) { new (out) BFV(etl::bind_front(etl::move(f), etl::move(b))); } else { new (out) BFV(etl::bind_front(f, etl::move(b))); } }
+VF_E void bfv_ctor_lv(BFV* out, TgtV& f, Mk& b) { new (out) BFV(f, b); }   /* bind_front(f, lvalue) itself does not compile: unwrap_ref_decay<Mk&> is incomplete */
+
+// not_fn: NFQ negates Q4 (category of the target), NFP negates CatP (category of the argument)
+using NFQ = etl::detail::not_fn_t<Q4>; using NFP = etl::detail::not_fn_t<CatP>;
+VF_E bool nfq_call(NFQ& n, int x, int mode) { return call_as<bool>(n, mode, x); }
+VF_E bool nfp_call(NFP& n, Mk& m, int mode, int acat) {
+#define VF_NFP(a) call_as<bool>(n, mode, a)
+    return VF_ARG_AS(VF_NFP, m, acat); }
+VF_E void nfq_make(NFQ* out, Q4& f, bool rv) { if (rv) { new (out) NFQ(etl::not_fn(etl::move(f))); } else { new (out) NFQ(etl::not_fn(f)); } }
+VF_E void nfq_copy(NFQ* out, NFQ const& n) { new (out) NFQ(n); }
+VF_E void nfq_move(NFQ* out, NFQ& n) { new (out) NFQ(etl::move(n)); }
+
+#if VF_FUNCTION_REF
+// function_ref: the referenced callable is called as the lvalue it was bound from; arguments travel with their declared category
+using FRM = etl::detail::function_ref<false, int(Mk, int)>;
+using FRL = etl::detail::function_ref<false, int(Mk&, int)>;
+using FRC = etl::detail::function_ref<false, int(Mk const&, int)>;
+using FRX = etl::detail::function_ref<false, int(Mk&&, int)>;
+VF_E int frq_call(Q4& f, int x, bool c) { if (c) { FR r(etl::as_const(f)); return r(x); } FR r(f); return r(x); }
+#if VF_FRM_BYVALUE /* cxx2c lowers a by-value parameter of non-trivially-copyable class type as a pointer, but passes the object itself in the call through the
+   function POINTER _callable (function_ref.hpp:43): goto-cc "conversion from 'struct vf_Mk' to 'struct vf_Mk *': implicit conversion not permitted" */
+VF_E int frm_call(TakeMk& f, Mk& m, int x, int acat) { FRM r(f);
+#define VF_FRM(a) r(a, x)
+    return VF_ARG_AS(VF_FRM, m, acat); }
+#endif
+VF_E int frx_cat(Mk& m, int sig) { Cat4 c4{}; if (sig == 0) { FRL r(c4); return r(m, 0); } if (sig == 1) { FRC r(c4); return r(m, 0); } FRX r(c4); return r(etl::move(m), 0); }
+#endif
+
+// inplace_function holding move-marking callables; IFV passes a Mk by value through the type-erased call
+using IFV = etl::inplace_function<int(Mk, int), 16, 8>;
+using IFX = etl::inplace_function<int(Mk&&, int), 16, 8>;
+static_assert(sizeof(Q4) == 16 && sizeof(BFV) == 24);
+VF_E void if_from_q4(IF* out, Q4 const& f) { new (out) IF(f); }
+VF_E void if_from_q4_rv(IF* out, Q4& f) { new (out) IF(etl::move(f)); }
+VF_E void if_assign_q4(IF& a, Q4& f, bool rv) { if (rv) { a = etl::move(f); } else { a = f; } }
+VF_E void ifw_from_bfv(IFW* out, BFV const& w) { new (out) IFW(w); }
+VF_E void ifw_from_bfv_rv(IFW* out, BFV& w) { new (out) IFW(etl::move(w)); }
+VF_E void ifw_copy_w(IFW* out, IFW const& o) { new (out) IFW(o); }
+VF_E void ifw_move_w(IFW* out, IFW& o) { new (out) IFW(etl::move(o)); }
+VF_E void ifw_assign_w(IFW& a, IFW& b, bool rv) { if (rv) { a = etl::move(b); } else { a = b; } }
+VF_E int ifv_roundtrip(TakeMk& f, Mk& m, int x, int acat) { IFV w(f);
+#define VF_IFV(a) w(a, x)
+    return VF_ARG_AS(VF_IFV, m, acat); }
+VF_E int ifx_cat(Mk& m) { IFX f(Cat4{}); return f(etl::move(m), 0); }
 }
